@@ -150,7 +150,11 @@ func (e *Engine) Begin(ctx context.Context, lock bool) (*Transaction, error) {
 	// check for transaction
 	sess, ok := ctx.Value(sessionKey{}).(*Session)
 	if ok {
+		// query session without the lock as committing, aborting and ending a
+		// session acquire the session lock before the engine lock
+		e.mutex.Unlock()
 		txn := sess.Transaction()
+		e.mutex.Lock()
 		if txn != nil {
 			return nil, fmt.Errorf("detected nested transaction")
 		}
